@@ -7,3 +7,14 @@ CLASSIFIERS = {}
 def classifier(fn):
     CLASSIFIERS[fn.__name__] = fn
     return fn
+
+
+@classifier
+def objective_beyond_backend_integer_range(v):
+    """KF1: a cost multiplier so large that the objective value of a matching
+    reaches 2**31 (CBC's integer range / 8 significant digits in its solution
+    file); the run is then reported Infeasible or fails.  Keyed on the option
+    set (a multiplier >= 10**8), never on a case hash."""
+    opts = (v.get('case') or {}).get('opts') or {}
+    big = any(isinstance(x, int) and x >= 10 ** 8 for c in opts.get('crits', []) for x in (c[2] or []))
+    return big and v.get('monitor', '').split('_after_')[0] in ('status_vs_reference', 'no_exception', 'pin_probe', 'matching_iff_optimal')
